@@ -1,10 +1,14 @@
-import Dashu.Proofs.Conv.Encode
+import Dashu.Proofs.Conv.Ratio
 /-
   C06 — Conversions are lossless or refused; lossy ones are correctly rounded and say so.
 
   Property theorems only (helper lemmas live in `Dashu/Proofs/Conv`).  A float is its bit pattern.
   `ieeeRound F m e` is the specification: the bit pattern of round-to-nearest-even of `m·2^e` in
   format `F` (overflow to ±∞, gradual underflow) and the sign of `result − exact`.
+  `encodeFixed`, `toF64 _ true`, `ubigTryFromFloat`, … model the code of the CURRENT tree (after the
+  `fix:` commits made from proposed_fixes/c06-*.diff); `encodeAsIs`, `toF64SmallAsIs`,
+  `ubigTryFromFloatAsIs`, `ratToFloatAsIs` model the pinned code before those commits and only
+  appear in counterexample theorems, which record why the repairs were needed.
 -/
 namespace Dashu.Props.C06
 open Dashu.Model Dashu.Model.Conv
@@ -21,16 +25,33 @@ theorem spec_rounding_ties_to_even (num den : Nat) (h : 2 * (num % den) = den) :
     rneDiv num den % 2 = 0 :=
   rneDiv_tie_even num den h
 
+/-- the bit patterns the spec produces mean what IEEE 754 says: `decode` of the fields
+    (sign, exponent field `E`, mantissa field `M`) is `±M·2^qmin` for `E = 0`, `±(2^MB+M)·2^(qmin+E-1)`
+    otherwise, and NaN / ±∞ (all-ones exponent) are refused -/
+theorem decode_reads_fields_f32 (s E M : Nat) (hs : s < 2) (hE : E < 2 ^ 8) (hM : M < 2 ^ 23) :
+    decode f32Dec (fields .binary32 s E M) =
+      if E = 2 ^ 8 - 1 then (if M ≠ 0 then .error .nan else .error .infinite)
+      else .ok ((if s > 0 then -1 else 1) * ((if E = 0 then M else 2 ^ 23 + M : Nat) : Int),
+                if E = 0 then Ieee.binary32.qmin else Ieee.binary32.qmin + E - 1) :=
+  decode_fields f32Dec .binary32 f32Dec_compat s E M hs hE hM
+
+theorem decode_reads_fields_f64 (s E M : Nat) (hs : s < 2) (hE : E < 2 ^ 11) (hM : M < 2 ^ 52) :
+    decode f64Dec (fields .binary64 s E M) =
+      if E = 2 ^ 11 - 1 then (if M ≠ 0 then .error .nan else .error .infinite)
+      else .ok ((if s > 0 then -1 else 1) * ((if E = 0 then M else 2 ^ 52 + M : Nat) : Int),
+                if E = 0 then Ieee.binary64.qmin else Ieee.binary64.qmin + E - 1) :=
+  decode_fields f64Dec .binary64 f64Dec_compat s E M hs hE hM
+
 /-! ### `encode` (base/src/bit.rs) — the centre of C06 -/
 
-/-- **encode_correct**, `f32`, for the body repaired by `proposed_fixes/c06-encode-rounding.diff`:
-    for EVERY `i32` mantissa and EVERY exponent the result is the IEEE round-to-nearest-even bit
-    pattern of `m·2^e` (normal, subnormal, ±∞, ±0) with the true sign of the error; no panic. -/
+/-- **encode_correct**, `f32` (body of the current tree, fix commit 6967148): for EVERY `i32`
+    mantissa and EVERY exponent the result is the IEEE round-to-nearest-even bit pattern of `m·2^e`
+    (normal, subnormal, ±∞, ±0) with the true sign of the error; no panic. -/
 theorem encode_correct_f32 (m e : Int) (hm : -2 ^ 31 ≤ m ∧ m < 2 ^ 31) :
     encodeFixed f32Fixed m e = .ok (ieeeRound .binary32 m e) :=
   f32_encode_correct m e hm
 
-/-- **encode_correct**, `f64` (repaired body), every `i64` mantissa and every exponent. -/
+/-- **encode_correct**, `f64`, every `i64` mantissa and every exponent. -/
 theorem encode_correct_f64 (m e : Int) (hm : -2 ^ 63 ≤ m ∧ m < 2 ^ 63) :
     encodeFixed f64Fixed m e = .ok (ieeeRound .binary64 m e) :=
   f64_encode_correct m e hm
@@ -45,18 +66,31 @@ theorem encode_correct_generic (c : EncConsts) (F : Ieee) (hc : Compatible c F) 
 example : (-2 ^ 31 : Int) ≤ 3 ∧ (3 : Int) < 2 ^ 31 ∧
     encodeFixed f32Fixed 3 (-151) = .ok (1, .pos) := by decide +kernel
 
+/-- **round trip** `encode (decode x) = Exact x` for every finite `f32` bit pattern (NaN/±∞ are
+    refused by `decode`; `-0.0` returns as `+0.0` because `encode` documents `Exact(0)` for zero) -/
+theorem encode_decode_roundtrip_f32 (s E M : Nat) (hs : s < 2) (hE : E < 2 ^ 8 - 1) (hM : M < 2 ^ 23) :
+    ∃ m e, decode f32Dec (fields .binary32 s E M) = .ok (m, e) ∧
+      encodeFixed f32Fixed m e = .ok (if E = 0 ∧ M = 0 then 0 else fields .binary32 s E M, .exact) :=
+  encode_decode_roundtrip f32Fixed f32Dec .binary32 f32Fixed_compatible f32Dec_compat s E M hs hE hM
+
+theorem encode_decode_roundtrip_f64 (s E M : Nat) (hs : s < 2) (hE : E < 2 ^ 11 - 1) (hM : M < 2 ^ 52) :
+    ∃ m e, decode f64Dec (fields .binary64 s E M) = .ok (m, e) ∧
+      encodeFixed f64Fixed m e = .ok (if E = 0 ∧ M = 0 then 0 else fields .binary64 s E M, .exact) :=
+  encode_decode_roundtrip f64Fixed f64Dec .binary64 f64Fixed_compatible f64Dec_compat s E M hs hE hM
+
 /-
-  theorem encode_correct_f32_full (m e) (hm : i32 range) (he : i16 range) :
-      encodeAsIs f32AsIs m e = .ok (ieeeRound .binary32 m e)
-  is FALSE for the code as it is in the pinned tree: the counterexamples below are kernel-checked.
+  History of the repaired defect.  The full statement for the pinned code,
+    theorem encode_correct_f32_pinned (m e) : encodeAsIs f32AsIs m e = .ok (ieeeRound .binary32 m e)
+  is FALSE; the counterexamples below are kernel-checked (they are what `proposed_fixes/
+  c06-encode-rounding.diff`, applied as commit 6967148, repaired).
 -/
 
-/-- the pinned `f32::encode` flags an inexact result `Exact` (sticky mask `0x7f` skips bit 7) -/
+/-- the pinned `f32::encode` flagged an inexact result `Exact` (sticky mask `0x7f` skipped bit 7) -/
 theorem encode_asis_f32_counterexample_flag :
     encodeAsIs f32AsIs (2 ^ 30 + 32) 0 = .ok (0x4e800000, .exact) ∧
     ieeeRound .binary32 (2 ^ 30 + 32) 0 = (0x4e800000, .neg) := by decide +kernel
 
-/-- … and returns a WRONG VALUE when the skipped bit turns a non-tie into an apparent tie -/
+/-- … and returned a WRONG VALUE when the skipped bit turned a non-tie into an apparent tie -/
 theorem encode_asis_f32_counterexample_value :
     encodeAsIs f32AsIs (2 ^ 30 + 96) 0 = .ok (0x4e800000, .neg) ∧
     ieeeRound .binary32 (2 ^ 30 + 96) 0 = (0x4e800001, .pos) := by decide +kernel
@@ -69,7 +103,7 @@ theorem encode_asis_f64_counterexample_value :
     encodeAsIs f64AsIs (2 ^ 62 + 768) 0 = .ok (0x43d0000000000000, .neg) ∧
     ieeeRound .binary64 (2 ^ 62 + 768) 0 = (0x43d0000000000001, .pos) := by decide +kernel
 
-/-- subnormal branch: the mask `0xfffffff` skips bit 28 of `shifted` -/
+/-- subnormal branch: the mask `0xfffffff` skipped bit 28 of `shifted` -/
 theorem encode_asis_f32_counterexample_subnormal :
     encodeAsIs f32AsIs 11 (-151) = .ok (2, .neg) ∧
     ieeeRound .binary32 11 (-151) = (3, .pos) := by decide +kernel
@@ -78,12 +112,12 @@ theorem encode_asis_f64_counterexample_subnormal :
     encodeAsIs f64AsIs 22 (-1077) = .ok (2, .neg) ∧
     ieeeRound .binary64 22 (-1077) = (3, .pos) := by decide +kernel
 
-/-- the `f32` underflow test is one binade too coarse: `3·2^-151` must round to `2^-149` -/
+/-- the `f32` underflow test was one binade too coarse: `3·2^-151` must round to `2^-149` -/
 theorem encode_asis_f32_counterexample_underflow :
     encodeAsIs f32AsIs 3 (-151) = .ok (0, .neg) ∧
     ieeeRound .binary32 3 (-151) = (1, .pos) := by decide +kernel
 
-/-- exactly representable inputs that panic (debug build): `-2^31·2^-180 = -2^-149` -/
+/-- exactly representable inputs that panicked (debug build): `-2^31·2^-180 = -2^-149` -/
 theorem encode_asis_f32_counterexample_shift_panic :
     encodeAsIs f32AsIs (-2 ^ 31) (-180) = .error (.undocumented f32AsIs.siteShl) ∧
     ieeeRound .binary32 (-2 ^ 31) (-180) = (0x80000001, .exact) := by decide +kernel
@@ -92,11 +126,135 @@ theorem encode_asis_f64_counterexample_shift_panic :
     encodeAsIs f64AsIs (-2 ^ 63) (-1137) = .error (.undocumented f64AsIs.siteShl) ∧
     ieeeRound .binary64 (-2 ^ 63) (-1137) = (0x8000000000000001, .exact) := by decide +kernel
 
-/-- `top_bit` overflows `i16` for exponents close to `i16::MAX` -/
+/-- `top_bit` overflowed `i16` for exponents close to `i16::MAX` -/
 theorem encode_asis_counterexample_exponent_overflow :
     encodeAsIs f32AsIs 1 32767 = .error (.undocumented f32AsIs.siteAdd) ∧
     ieeeRound .binary32 1 32767 = (0x7f800000, .pos) ∧
     encodeAsIs f64AsIs 1 32767 = .error (.undocumented f64AsIs.siteAdd) ∧
     ieeeRound .binary64 1 32767 = (0x7ff0000000000000, .pos) := by decide +kernel
+
+/-! ### integers → floats (integer/src/convert.rs) -/
+
+/-- **sticky-bit lemma**: a magnitude with at least two bits below the precision may be replaced by
+    (its top bits | "something non-zero was shifted out") — same rounded result, same error sign.
+    This is what `to_f64_nontrivial` and the repaired `RBig::to_f64` rely on. -/
+theorem sticky_bit_lemma (F : Ieee) (hF : F.Ok) (x s : Nat) (e : Int) (hx : x ≠ 0) (hs : 1 ≤ s)
+    (hlen : F.prec + 2 + s ≤ bitLen x) :
+    ieeeRoundMag F ((x / 2 ^ s) ||| (if x % 2 ^ s ≠ 0 then 1 else 0)) (e + s) = ieeeRoundMag F x e :=
+  sticky_round F hF x s e hx hs hlen
+
+/-- **`UBig::to_f64`** (current tree): correctly rounded with the true error sign, for every canonical
+    magnitude — inline (`to_f64_small`) or heap of any length (`to_f64_nontrivial` → `encode`) —
+    and every word size ≥ 32. -/
+theorem ubig_to_f64_correct (W : Nat) (hW : 32 ≤ W) (r : TRepr) (hr : r.Canon W) :
+    toF64 W true r = .ok (ieeeRound .binary64 (r.value W : Int) 0) :=
+  toF64_correct W hW r hr
+
+/-- **`UBig::to_f32`**, 64-bit words (see `to_f32_small` note in the evidence for narrower words) -/
+theorem ubig_to_f32_correct (W : Nat) (hW : 64 ≤ W) (r : TRepr) (hr : r.Canon W) :
+    toF32 W true r = .ok (ieeeRound .binary32 (r.value W : Int) 0) :=
+  toF32_correct W hW r hr
+
+/-- `IBig::to_f32/to_f64` negate value and error sign of the magnitude's result -/
+theorem ibig_to_float_sign (F : Ieee) (x : Nat) (e : Int) (hx : x ≠ 0) :
+    ieeeRound F (-(x : Int)) e = signedApx F true (ieeeRound F (x : Int) e) :=
+  ieeeRound_neg F x e hx
+
+-- non-vacuity: a 3-word canonical value through the heap path
+example : (TRepr.large [0, 1 <<< 10, 1]).Canon 64 ∧
+    toF64 64 true (.large [0, 1 <<< 10, 1]) = .ok (0x47f0000000000000, .neg) := by decide +kernel
+
+/-- the pinned `to_f64_small` reported `u128::MAX` as exactly `2^128` (repaired by commit e7f1714) -/
+theorem to_f64_small_asis_counterexample :
+    toF64SmallAsIs 64 (2 ^ 128 - 1) = (0x47f0000000000000, .exact) ∧
+    ieeeRound .binary64 (2 ^ 128 - 1) 0 = (0x47f0000000000000, .pos) := by decide +kernel
+
+/-- **`TryFrom<UBig> for f32`** (and `IBig`, which negates): whenever the bit-length rule
+    (`bit_len ≤ 24`, or 25 bits and a power of two) lets a value through, the cast is exact.  The rule is
+    conservative — `2^25` is refused although representable — which the property allows. -/
+theorem ubig_try_to_f32_sound (x b : Nat) (h : ubigTryToFloat .binary32 x = .ok b) :
+    ieeeRound .binary32 (x : Int) 0 = (b, .exact) :=
+  ubigTryToFloat_sound .binary32 Ieee.binary32_ok (by decide) x b h
+
+theorem ubig_try_to_f64_sound (x b : Nat) (h : ubigTryToFloat .binary64 x = .ok b) :
+    ieeeRound .binary64 (x : Int) 0 = (b, .exact) :=
+  ubigTryToFloat_sound .binary64 Ieee.binary64_ok (by decide) x b h
+
+/-! ### floats → integers -/
+
+/-- **`TryFrom<f32/f64> for UBig`** (current tree): NaN/±∞/negative ⇒ OutOfBounds, a fractional part ⇒
+    LossOfPrecision, otherwise exactly the integer the float denotes -/
+theorem ubig_try_from_float_exact_or_refused (d : DecConsts) (bits : Nat) :
+    ((fun n : Nat => (n : Int)) <$> ubigTryFromFloat d bits) = intFromFloatSpec d false bits :=
+  ubigTryFromFloat_spec d bits
+
+theorem ibig_try_from_float_exact_or_refused (d : DecConsts) (bits : Nat) :
+    ibigTryFromFloat d bits = intFromFloatSpec d true bits :=
+  ibigTryFromFloat_spec d bits
+
+/-- the pinned code converted `1.5f32` to `1` and `-1.5f32` to `-2` (repaired: fraction ⇒ refused) -/
+theorem int_from_float_asis_counterexample :
+    ubigTryFromFloatAsIs f32Dec 0x3fc00000 = .ok 1 ∧ intFromFloatSpec f32Dec false 0x3fc00000 = .error .lossOfPrecision ∧
+    ibigTryFromFloatAsIs f32Dec 0xbfc00000 = .ok (-2) ∧ intFromFloatSpec f32Dec true 0xbfc00000 = .error .lossOfPrecision := by
+  decide +kernel
+
+/-! ### primitive integers ↔ big integers -/
+
+/-- `try_to_unsigned::<T>` on a canonical magnitude succeeds iff the value fits the type, and
+    returns it (word sizes that are a multiple of 8; `T` at most one word or a multiple of it) -/
+theorem try_to_unsigned_in_range_iff (W bits : Nat) (hW : 8 ≤ W) (hW8 : W % 8 = 0) (hb8 : bits % 8 = 0)
+    (hbits : bits ≤ W ∨ bits % W = 0) (r : TRepr) (hr : r.Canon W) :
+    tryToUnsigned W bits r = if r.value W < 2 ^ bits then .ok (r.value W) else .error .outOfBounds :=
+  tryToUnsigned_spec W bits hW hW8 hb8 hbits r hr
+
+/-- `try_from_sign_magnitude` (every signed target): succeeds iff `±mag` is an `iN`, returns it -/
+theorem try_from_sign_magnitude_in_range_iff (bits : Nat) (hb : 1 ≤ bits) (neg : Bool) (mag : Nat)
+    (hm : mag < 2 ^ bits) :
+    tryFromSignMagnitude bits neg mag =
+      intoRangeSpec (-(2 ^ (bits - 1) : Int)) (2 ^ (bits - 1) - 1) (if neg then -(mag : Int) else mag) :=
+  tryFromSignMagnitude_spec bits hb neg mag hm
+
+/-- `to_sign_magnitude` of an `iN` (including `iN::MIN`) -/
+theorem to_sign_magnitude_exact (bits : Nat) (hb : 1 ≤ bits) (x : Int)
+    (hx : -(2 ^ (bits - 1) : Int) ≤ x ∧ x ≤ 2 ^ (bits - 1) - 1) :
+    toSignMagnitude bits x = (decide (x < 0), x.natAbs) :=
+  toSignMagnitude_spec bits hb x hx
+
+/-- `From<uN> for UBig` keeps the value, and converting back returns it -/
+theorem from_unsigned_roundtrip (W bits x : Nat) (hW : 1 ≤ W) (hx : x < 2 ^ bits) (hb : bits ≤ 2 * W) :
+    (fromUnsigned W x).value W = x ∧ tryToUnsigned W bits (fromUnsigned W x) = .ok x :=
+  ⟨(fromUnsigned_spec W x hW).1, unsigned_roundtrip W bits x hx hb⟩
+
+-- non-vacuity: u128::MAX on 64-bit words, i8::MIN
+example : tryToUnsigned 64 128 (fromUnsigned 64 (2 ^ 128 - 1)) = .ok (2 ^ 128 - 1) ∧
+    tryFromSignMagnitude 8 true 128 = .ok (-128) ∧ tryFromSignMagnitude 8 false 128 = .error .outOfBounds := by
+  decide +kernel
+
+/-! ### rationals → floats (rational/src/convert.rs) -/
+
+/-- **`RBig::to_f32`** (current tree, commit 1d8b6bc): for EVERY numerator and non-zero denominator the
+    result is the IEEE round-to-nearest-even of the rational with the true error sign — quotient with
+    two guard bits, sticky bit, a single rounding in `encode` (sticky lemma for non-dyadic quotients). -/
+theorem rbig_to_f32_correct (num : Int) (den : Nat) (hden : den ≠ 0) :
+    ratToFloatFixed rat32 (encodeFixed f32Fixed) num den = .ok (ieeeRoundRat .binary32 .halfEven num den) :=
+  rbig_to_f32_correct' num den hden
+
+/-- **`RBig::to_f64`** (current tree) -/
+theorem rbig_to_f64_correct (num : Int) (den : Nat) (hden : den ≠ 0) :
+    ratToFloatFixed rat64 (encodeFixed f64Fixed) num den = .ok (ieeeRoundRat .binary64 .halfEven num den) :=
+  rbig_to_f64_correct' num den hden
+
+/-- the pinned `RBig::to_f32` double-rounded: `100663301/4 = 25165825.25` went to `25165824`
+    (repaired by commit 1d8b6bc: guard bits + sticky, then a single rounding in `encode`) -/
+theorem rbig_to_f32_asis_counterexample :
+    ratToFloatAsIs rat32 (encodeFixed f32Fixed) 100663301 4 = .ok (0x4bc00000, .neg) ∧
+    ratToFloatFixed rat32 (encodeFixed f32Fixed) 100663301 4 = .ok (0x4bc00001, .pos) ∧
+    ieeeRoundRat .binary32 .halfEven 100663301 4 = (0x4bc00001, .pos) := by decide +kernel
+
+/-- … and `RBig::to_f64` sent `3/2^1076 = 1.5·2^-1075` to zero -/
+theorem rbig_to_f64_asis_counterexample :
+    ratToFloatAsIs rat64 (encodeFixed f64Fixed) 3 (2 ^ 1076) = .ok (0, .neg) ∧
+    ratToFloatFixed rat64 (encodeFixed f64Fixed) 3 (2 ^ 1076) = .ok (1, .pos) ∧
+    ieeeRoundRat .binary64 .halfEven 3 (2 ^ 1076) = (1, .pos) := by decide +kernel
 
 end Dashu.Props.C06
